@@ -31,5 +31,20 @@ def main(path):
             print(' real: raised', type(e).__name__, e)
         print(' recorded:', {k: v for k, v in r.items() if k not in ('source',)})
         return 0
+    if kind == 'history':
+        from harness.history import SCENARIOS, real_history, _show
+        rh, rf = real_history(SCENARIOS[r['scenario']], r['K0'], bool(r.get('compress')))
+        print(' scenario', r['scenario'], 'K0 =', r['K0'], 'compress =', r.get('compress'))
+        print(' second call after the first :', _show(rh))
+        print(' second call, fresh process  :', _show(rf))
+        print(' ->', 'same' if rh == rf else 'DIFFERENT')
+        return 0
+    if kind == 'lex':
+        for label, text in (('line', r['line']), ('base', r['base'])):
+            try:
+                print(' %s %r -> %r' % (label, text, list(real.lex_tokens(text).tokens)))
+            except Exception as e:
+                print(' %s %r -> raised %s: %s' % (label, text, type(e).__name__, e))
+        return 0
     print(json.dumps(r, indent=1))
     return 0
